@@ -152,6 +152,11 @@ Step(ev) == CASE ev.ev = "FromMetric" -> FromMetricStep(ev)
               [] ev.ev = "InitMetric" -> InitMetricStep(ev)
               [] ev.ev = "Inverse" -> InverseStep(ev)
               [] ev.ev = "PseudoInverse" -> PinvStep(ev)
+              \* an integer-typed SPD array as prior / init gives the model the same numbers as a float array give
+              [] ev.ev = "ArrayPriorDtype" ->
+                   R(G("C20.array_prior_used_as_given_whatever_its_dtype",
+                       ev.outcome_int = "ok" /\ ApproxM(ev.L_int, ev.L_float, 2, 2, MaxAbsM(ev.L_float))),
+                     {"C20.array_prior_used_as_given_whatever_its_dtype"})
               [] ev.ev = "InitComponents" -> InitComponentsStep(ev)
               [] OTHER -> R({"TRACE.unknown_event"}, {})
 Init == tid \in 1..Len(Traces) /\ l = 1 /\ fails = {} /\ ex = {}
